@@ -25,3 +25,12 @@ Definition iso_issuer_tbs (protected payload : bytes) : bytes := rfc_tbs_sign1 p
 Definition iso_item_digest (alg : N) (item_bytes : bytes) : bytes :=
   let tagged := encode (CTag 24 (CBytes item_bytes)) in
   if alg =? 256 then sha256 tagged else if alg =? 384 then sha384 tagged else sha512 tagged.
+
+(* ISO 18013-5 9.1.4.3: ReaderAuthentication = ["ReaderAuthentication", SessionTranscript, ItemsRequestBytes],
+   ReaderAuthenticationBytes = #6.24(bstr .cbor ReaderAuthentication), signed as detached payload *)
+Definition iso_reader_authentication (de erk : bytes) (handover : cbor) (items : bytes) : cbor :=
+  CArray [CText (bytes_of_string "ReaderAuthentication");
+          CArray [CTag 24 (CBytes de); CTag 24 (CBytes erk); handover];
+          CTag 24 (CBytes items)].
+Definition iso_reader_tbs (protected : bytes) de erk handover items : bytes :=
+  rfc_tbs_sign1 protected [] (encode (CTag 24 (CBytes (encode (iso_reader_authentication de erk handover items))))).
